@@ -243,6 +243,71 @@ func gen(r *rand.Rand, depth int) string {
 	}
 }
 
+var repBounds = []string{"{0,}", "{1,}", "{2,}", "{3,}", "{4,}", "{0}", "{1}", "{2}", "{3}", "{0,1}", "{0,2}", "{0,3}", "{1,2}", "{1,3}", "{1,4}", "{2,3}", "{2,5}", "{3,4}", "{0,5}"}
+
+// genRepSub: operands for repeats — nullable ones, captures, alternations with empty branches, nested repeats
+func genRepSub(r *rand.Rand, depth int) string {
+	switch r.Intn(14) {
+	case 0:
+		return "a"
+	case 1:
+		return "(a)"
+	case 2:
+		return "(?:a*)"
+	case 3:
+		return "(a*)"
+	case 4:
+		return "(?:a|)"
+	case 5:
+		return "(|a)"
+	case 6:
+		return "(?:a|b|)"
+	case 7:
+		return "(?:(y)|x|[0-9a-f]*|(-))"
+	case 8:
+		return "(?:a?)"
+	case 9:
+		return "(?:)"
+	case 10:
+		return []string{`^`, `$`, `\b`, `(?m:^)`, "[a-c]", "[ac0-9]", "ab", "(ab|c)"}[r.Intn(8)]
+	case 11:
+		if depth > 0 {
+			return "(?:" + genRep(r, depth-1) + ")"
+		}
+		return "[ab]"
+	case 12:
+		if depth > 0 {
+			return "(" + genRep(r, depth-1) + ")"
+		}
+		return "(b)"
+	default:
+		if depth > 0 {
+			return "(?:" + gen(r, depth) + ")"
+		}
+		return "(?:b|a*)"
+	}
+}
+
+// genRep: a counted repeat (greedy or not) of such an operand, possibly in a context
+func genRep(r *rand.Rand, depth int) string {
+	x := genRepSub(r, depth) + repBounds[r.Intn(len(repBounds))] + []string{"", "?"}[r.Intn(2)]
+	switch r.Intn(6) {
+	case 0:
+		return x + genRepSub(r, 0)
+	case 1:
+		return genRepSub(r, 0) + x
+	case 2:
+		return "(?:" + x + "|" + genRep(r, 0) + ")"
+	case 3:
+		if depth > 0 {
+			return x + genRep(r, depth-1)
+		}
+		return x
+	default:
+		return x
+	}
+}
+
 func nest(n int) string { // n nested non-capturing stars around a literal: depth n+1
 	s := "a"
 	for i := 0; i < n; i++ {
@@ -276,6 +341,16 @@ func main() {
 	r := rand.New(rand.NewSource(20260923))
 	for len(pats) < 900 {
 		add(gen(r, 1+r.Intn(4)))
+	}
+	for _, sub := range []string{"a", "(a)", "(?:a*)", "(a*)", "(?:a|)", "(|a)", "(?:a|b|)", "(?:(y)|x|[0-9a-f]*|(-))", "(?:a?)", "(?:)", "ab", "[a-c]", "[ac0-9]", "^", "(?:a{2,3})", "(?:a{1,})", "(a{0,2}?)", "(?:(a){0,2}){1,3}"} {
+		for _, bd := range repBounds {
+			add(sub + bd)
+			add(sub + bd + "?")
+			add("x" + sub + bd + "y")
+		}
+	}
+	for len(pats) < 4200 {
+		add(genRep(r, r.Intn(3)))
 	}
 	skipped, used := 0, 0
 	emit := func(p, mode string, cfg nfa.CompilerConfig) {
